@@ -154,8 +154,15 @@ impl<S: WebSocket, T: TimestampProvider> Task<S, T> {
                 (true, Ok(()))
             }
         };
-        self.wind_down(should_drain_frame_rx, tx_msg_rx, dropped_flows_rx)
-            .await;
+        // After an error (transport failure, protocol violation, keepalive timeout) the peer
+        // may never speak again, so the close handshake must not be waited for.
+        self.wind_down(
+            should_drain_frame_rx,
+            res.is_ok(),
+            tx_msg_rx,
+            dropped_flows_rx,
+        )
+        .await;
         res
     }
 
@@ -293,6 +300,7 @@ impl<S: WebSocket, T: TimestampProvider> Task<S, T> {
     async fn wind_down(
         &self,
         should_drain_msg_rx: bool,
+        await_peer_close: bool,
         mut tx_msg_rx: mpsc::UnboundedReceiver<Message>,
         mut dropped_flows_rx: mpsc::UnboundedReceiver<u32>,
     ) {
@@ -338,13 +346,30 @@ impl<S: WebSocket, T: TimestampProvider> Task<S, T> {
         poll_fn(|cx| self.ws.lock().poll_close_unpin(cx)).await.ok();
         // The above line only closes the `Sink`. Before we terminate connections,
         // we dispatch the remaining frames in the `Source` to our streams.
-        while let Some(Ok(msg)) = poll_fn(|cx| self.ws.lock().poll_next_unpin(cx)).await {
+        // If we got here because of an error, the peer may be gone for good: take only what
+        // has already arrived, because everything still pending on our side has to be
+        // resolved regardless. Otherwise wait for the peer to finish the close handshake.
+        loop {
+            let next = poll_fn(|cx| self.ws.lock().poll_next_unpin(cx));
+            let item = if await_peer_close {
+                next.await
+            } else {
+                next.now_or_never().flatten()
+            };
+            let Some(Ok(msg)) = item else {
+                break;
+            };
             debug!("processing remaining message after closure {msg:?}");
             self.process_message(msg, true).await.ok();
         }
         // Finally, we send EOF to all established streams.
         self.flows.write().drain().for_each(|(flow_id, slot)| {
-            self.close_flow_local(slot, flow_id, true);
+            if let FlowSlot::Requested(sender) = slot {
+                // Not "flow ID rejected, try another one": the requester sees `Closed`
+                drop(sender);
+            } else {
+                self.close_flow_local(slot, flow_id, true);
+            }
         });
         // To clean up, we also drain the `dropped_flows_rx` channel
         dropped_flows_rx.close();
